@@ -21,7 +21,7 @@ PROPERTY = "C10"
 META = dict(
     explanation="Histories are sequences of the public ForSys calls; each choice is a symbolic integer, so the explorer covers "
                 "every history inside the bound, and inside each history every tangent value and every back-end result.",
-    bounds=dict(tissues="T3 and K3 two-frame series", prefix_length="4 warm-up builds + 1 free call quick, + 2 free calls thorough, + 4 canonical calls",
+    bounds=dict(tissues="T3 and K3 two-frame series", prefix_length="4 warm-up builds + 1 free call (quick; K3 thorough) or 2 free calls (T3 thorough) + 4 canonical calls",
                 alphabet="build_force_matrix(t), solve_stress(t, method in default/lsq/lsq_linear[/fix_stress], b_matrix none/velocity, "
                          "angle_limit default/2pi/3), build_pressure_matrix(t), solve_pressure(t), get_system_velocity_per_frame()",
                 frames="2"),
@@ -284,17 +284,17 @@ def jobs(tier):
                 js.append(Job(f"content-{topo}-t{t}-{method or 'default'}", "c10:content", dict(topo=topo, t=t, method=method),
                               budget_s=900, weight=8 if topo == "K3" else 1, opts=dict(cheap_forks=True), max_paths=2000))
     nal = len(alphabet(tier))
-    for topo in (("T3",) if quick else ("T3", "K3")):
-        for t in ((1,) if quick else (0, 1)):
-            for first in range(nal):
-                L = 1 if quick else 2
-                js.append(Job(f"history-{topo}-t{t}-first{first}-len{L}", "c10:history",
-                              dict(topo=topo, t=t, length=L, first=first, tier=tier), budget_s=1500, max_paths=20000,
-                              weight=3, opts=dict(cheap_forks=True)))
-        nal2 = len([c for c in alphabet(tier) if c[0] not in ("B", "V")])
-        for first in range(nal2):
-            js.append(Job(f"history-{topo}-resolve-without-rebuild-first{first}", "c10:history",
-                          dict(topo=topo, t=1, length=1 if quick else 2, first=first, tier=tier, rebuild=False), budget_s=1500,
+    nal2 = len([c for c in alphabet(tier) if c[0] not in ("B", "V")])
+    if quick:
+        plan = [("T3", 1, 1, range(nal), True), ("T3", 1, 1, range(nal2), False)]
+    else:
+        # measured: one two-call T3 history job explores 180..1920 paths (3..15 min); K3 two-call histories do not finish in 90 min
+        plan = [("T3", 1, 2, range(nal), True), ("T3", 0, 1, range(nal), True), ("T3", 1, 2, range(nal2), False),
+                ("K3", 1, 1, range(0, nal, 3), True), ("K3", 1, 1, range(0, nal2, 3), False)]
+    for topo, t, L, firsts, rebuild in plan:
+        for first in firsts:
+            name = f"history-{topo}-t{t}-first{first}-len{L}" if rebuild else f"history-{topo}-resolve-without-rebuild-first{first}-len{L}"
+            js.append(Job(name, "c10:history", dict(topo=topo, t=t, length=L, first=first, tier=tier, rebuild=rebuild), budget_s=2400,
                           max_paths=20000, weight=3, opts=dict(cheap_forks=True)))
     for topo in ("T3",) if quick else ("T3", "K3"):
         for method in (None, "lsq_linear"):
